@@ -84,12 +84,13 @@ def write(path, data):
         with open(path, 'wb') as f:
             f.write(data)
     else:
-        with open(path, 'w', encoding='utf-8', newline='') as f:
+        with open(path, 'w', encoding='iso-8859-1' if path.lower().endswith('.pdf') else 'utf-8', newline='') as f:
             f.write(data)
 
 
 def read_text(path):
-    with open(path, encoding='utf-8', newline='') as f:
+    # (tdda reads and writes *.pdf - and its temporaries named after one - as iso-8859-1, everything else as UTF-8)
+    with open(path, encoding='iso-8859-1' if path.lower().endswith('.pdf') else 'utf-8', newline='') as f:
         return f.read()
 
 
@@ -127,7 +128,13 @@ def gen_case(rng, i):
         for k in (['actual_text', 'expected_text'] if side == 'both' else [side]):
             case[k] = deg
         case['shape'] = 'degenerate-' + side
-    if entry in ('string', 'file') and rng.random() < 0.12:
+    if entry == 'string' and rng.random() < 0.06:
+        # a reference called *.pdf: Latin-1 text only (what iso-8859-1 can hold), no options whose strings are not ASCII
+        case['names'] = ['act.txt', 'ref.pdf']
+        for k in ('actual_text', 'expected_text'):
+            case[k] = ''.join(ch if ord(ch) < 256 and ch not in '\x85\xa0' else 'é' for ch in case[k])
+        case['opts'] = {k: v for k, v in case['opts'].items() if k in ('lstrip', 'rstrip')}
+    elif entry in ('string', 'file') and rng.random() < 0.12:
         case['names'] = rng.choice([['act.txt', 'actual-raw-ref.txt'], ['actual-out.txt', 'expected-out.txt'], ['act.txt', 'expected-raw-ref.txt'],
                                     ['actual-raw-out.txt', 'ref.txt'], ['act.txt', 'actual-ref.txt']])
     if entry == 'files':
